@@ -781,21 +781,29 @@ func (s *Session) Acquire(l *LockState, write bool, gatePoint bool) {
 	}
 	if blocked() {
 		s.LockWaitsBG++
-		s.bgOnLock++
-		l.BgWaiters++
-		seq := l.ReleaseSeq
-		s.cond.Broadcast()
+		counted := false
+		var seq int64
 		for blocked() && s.on && !s.dead[g] {
+			if !counted {
+				// (again, if the foreground released the lock — which uncounts its waiters — and took
+				// it once more before this goroutine got to run)
+				s.bgOnLock++
+				l.BgWaiters++
+				seq = l.ReleaseSeq
+				counted = true
+				s.cond.Broadcast()
+			}
 			s.cond.Wait()
+			if l.ReleaseSeq != seq {
+				counted = false
+			}
 		}
 		if s.dead[g] {
 			// its instance was shut down meanwhile (NewInstance has reset bgOnLock)
 			s.mu.Unlock() // the deferred Unlock never runs
 			select {}
 		}
-		if l.ReleaseSeq == seq {
-			// (otherwise the foreground's release has uncounted this waiter already: from that
-			// moment on it is a running goroutine again, not one that waits for the foreground)
+		if counted && l.ReleaseSeq == seq {
 			s.bgOnLock--
 			l.BgWaiters--
 		}
